@@ -414,7 +414,7 @@ func c02pipeline(r *core.Run) {
 			if !ok {
 				continue
 			}
-			wait := ps.startPoll('ζ')
+			wait := ps.startPoll(0x1d)
 			pollDone := make(chan struct{})
 			go func() { wait(); close(pollDone) }()
 			fedAll := true
@@ -429,7 +429,7 @@ func c02pipeline(r *core.Run) {
 				}
 			}
 			if fedAll {
-				fedAll = ps.feedOrDone([]byte("ζ"), pollDone)
+				fedAll = ps.feedOrDone([]byte{0x1d}, pollDone)
 			}
 			got, okp := wait()
 			if !fedAll && okp {
